@@ -167,6 +167,30 @@ func runC06(c *Cfg) {
 			r.Nontrivial(fmt.Sprintf("rand %d %d %s", cs.N, cs.C, completionOrder(o)))
 		}
 	}, "C06")
+	// 2b. stop mode and cancellation under gated random schedules: post still sees every executed item's own outcome,
+	// once, after everything that was started has settled
+	ns := c.Pick(1500, 20000)
+	gatedLoop(c, ns, func(i int) *BatchCase {
+		rg := c.Rng("c06stop", i)
+		n := 2 + rg.IntN(10)
+		cc := 2 + rg.IntN(3)
+		budget := 1 + rg.IntN(2)
+		it := make([]ItemScript, n)
+		for j := range it {
+			it[j].K = 1 + rg.IntN(budget+1)
+		}
+		cs := &BatchCase{Family: "stop-random", N: n, C: cc, Stop: true, SetMode: true, Budget: budget, Items: it, Shape: "results", Build: "builder", ExecStyle: []string{"result", "any"}[i%2], Gated: true, Policy: []string{"random", "last", "random", "first"}[i%4], PSeed: rg.Uint64()}
+		if i%3 == 0 {
+			cs.Family = "cancel-random"
+			cs.Stop = rg.IntN(2) == 0
+			cs.Cancel = &CancelSpec{Kind: []string{"cancel", "deadline"}[i%2], Item: rg.IntN(n), Attempt: 1}
+		}
+		return cs
+	}, func(i int, cs *BatchCase, o *BatchObs) {
+		r.Count("stop_cancel.runs", 1)
+		r.Count("stop_cancel."+cs.Family, 1)
+		r.Nontrivial(fmt.Sprintf("%s %d %d %s", cs.Family, cs.N, cs.C, completionOrder(o)))
+	}, "C06")
 	// 3. prep shapes, sequential and concurrent, free-running
 	shapes := []string{"results", "any", "strings", "ints", "floats", "maps", "named", "ptrs"}
 	var sc []*BatchCase
@@ -347,9 +371,19 @@ func runC02Batch(c *Cfg) {
 		default:
 			cs.Build, cs.FB = "compose", rg.IntN(3) != 0
 		}
+		if i%3 == 0 && cc >= 2 {
+			// stop mode, gated, adversarial release order: an item is mid-retry while another one fails for good
+			cs.Stop, cs.SetMode, cs.Gated, cs.Policy, cs.SleepUs = true, true, true, "random", 0
+			cs.Budget = 2 + rg.IntN(3)
+			cs.Items = genItems(rg, n, cs.Budget, 0)
+			cs.Family = "c02-batch-stop-gated"
+		}
 		return cs
 	}, func(i int, cs *BatchCase, o *BatchObs) {
 		r.Count("batch.runs", 1)
+		if cs.Stop {
+			r.Count("batch.runs.stop_mode_gated", 1)
+		}
 		ex := 0
 		for _, a := range o.Attempts {
 			ex += a
